@@ -34,6 +34,7 @@ func scenarios(tier string) []sched.Scenario {
 		{Name: "client-cancel", Fault: "client-cancel", Clients: 2, PerCli: 2, SyncData: true},
 		{Name: "leader-crash", Fault: "leader-crash", Clients: 2, PerCli: 1, SyncData: true},
 		{Name: "spurious-failover", Fault: "spurious-failover", Clients: 2, PerCli: 1, SyncData: true},
+		{Name: "lost-newterm-response", Fault: "lost-newterm-response", Clients: 2, PerCli: 1, SyncData: true},
 		{Name: "swap", Fault: "swap", Clients: 2, PerCli: 1, SyncData: true},
 		{Name: "leader-swap", Fault: "leader-swap", Clients: 2, PerCli: 1, SyncData: true},
 		{Name: "leader-crash-restart", Fault: "leader-crash-restart", Clients: 2, PerCli: 1, SyncData: true},
